@@ -13,7 +13,7 @@ it back with uniform types:
      "genlists": [ {"sp": "", "files": [x.in ...]} ],   # glK = generator(cp, output '@BASENAME@.h').process(files),
                                                     # ONE object that several targets may consume
      "targets": [ {                                 # refs to other targets are 1-based indices of EARLIER targets
-         "kind": "exe"|"static"|"shared"|"both"|"lib"|"custom"|"run"|"alias",
+         "kind": "exe"|"static"|"shared"|"both"|"lib"|"module"|"custom"|"run"|"alias",
          "name": str, "subdir": "" | "sub" | "sub/deep", "sp": "" | "<subproject name>",
          "srcs": [basename.c ...],                  # plain C sources (one-liners written by us)
          "gen": [i ...],                            # custom targets whose outputs are used as sources
@@ -33,7 +33,7 @@ it back with uniform types:
      "tests": [ {"name": str, "exe": i, "depends": [i], "args": [i], "sargs": [str], "bench": bool,
                  "suite": [str], "env": [[k, v]], "sp": "", "script": ""} ],   # script != "": test runs <script> (sh) instead of exe
      "conf": [ {"subdir": "", "out": "conf.h", "sp": ""} ],                     # configure_file(copy-like)
-     "installs": [ {"kind": "data"|"headers"|"man"|"subdir"|"emptydir"|"symlink", "subdir": "", "sp": "",
+     "installs": [ {"kind": "data"|"headers"|"man"|"subdir"|"emptydir"|"symlink"|"conf", "subdir": "", "sp": "",
                     "files": [str], "install_dir": "", "tag": "", "rename": [str], "extra": {},
                     "dir_expr": "",      # raw meson expression used for install_dir: instead of the string (e.g.
                                          # "get_option('datadir') / 'x'"; then install_dir holds the expected
@@ -95,12 +95,12 @@ TEST_DEFAULTS: T.Dict[str, T.Any] = {
 CONF_DEFAULTS: T.Dict[str, T.Any] = {'subdir': '', 'out': 'conf.h', 'sp': ''}
 INSTALL_DEFAULTS: T.Dict[str, T.Any] = {'kind': 'data', 'subdir': '', 'sp': '', 'files': [], 'install_dir': '', 'tag': '',
                                         'rename': [], 'extra': {}, 'dir_expr': '', 'strip': False, 'preserve': False}
-OPTION_DEFAULTS: T.Dict[str, T.Any] = {'name': 'o', 'type': 'string', 'value': '', 'choices': [], 'sp': ''}
+OPTION_DEFAULTS: T.Dict[str, T.Any] = {'name': 'o', 'type': 'string', 'value': '', 'choices': [], 'sp': '', 'yield': False}
 PROJECT_DEFAULTS: T.Dict[str, T.Any] = {
     'name': 'proj', 'lang': 'c', 'layout': 'mirror', 'deflib': 'shared', 'unity': 'off', 'unity_size': 4, 'genlists': [], 'targets': [], 'tests': [],
     'conf': [], 'installs': [], 'options': [], 'show_builtins': [],
 }
-BUILD_KINDS = ('exe', 'static', 'shared', 'both', 'lib')
+BUILD_KINDS = ('exe', 'static', 'shared', 'both', 'lib', 'module')   # module: shared_module()
 LIB_KINDS = ('static', 'shared', 'both', 'lib')
 
 
@@ -300,6 +300,8 @@ def write_project(p: T.Dict[str, T.Any], srcdir: T.Union[str, os.PathLike]) -> N
                     kws.append(('value', mstr(o['value'])))
                 else:
                     kws.append(('value', mstr(o['value'])))
+                if o.get('yield'):
+                    kws.append(('yield', 'true'))
                 lines.append(f"option({mstr(o['name'])}{_kw(kws)})")
             fs.file(f'{d}/meson.options' if d else 'meson.options', '\n'.join(lines) + '\n')
         for o in opts:
@@ -451,7 +453,7 @@ def _emit_target(p: T.Dict[str, T.Any], fs: _Files, i: int, t: T.Dict[str, T.Any
             kws.append(('install', 'true'))
         kws += extra
         fn = {'exe': 'executable', 'static': 'static_library', 'shared': 'shared_library', 'both': 'both_libraries',
-              'lib': 'library'}[kind]
+              'lib': 'library', 'module': 'shared_module'}[kind]
         fs.line(d, f"{var} = {fn}({', '.join([mstr(t['name'])] + srcs)}{_kw(kws)})")
     elif kind == 'custom':
         # input: a file of ours; .c outputs are valid C (functions / main) so that C05 can really build them
@@ -470,7 +472,8 @@ def _emit_target(p: T.Dict[str, T.Any], fs: _Files, i: int, t: T.Dict[str, T.Any
             kws.append(('build_by_default', t['bbd']))
         if t['install']:
             kws.append(('install', 'true'))
-            kws.append(('install_dir', mstr('share/ct')))
+            if 'install_dir' not in t['extra']:
+                kws.append(('install_dir', mstr('share/ct')))
         kws += extra
         fs.line(d, f"{var} = custom_target({mstr(t['name'])}{_kw(kws)})")
     elif kind == 'run':
@@ -542,7 +545,16 @@ def _emit_install(fs: _Files, k: int, it: T.Dict[str, T.Any], d: str) -> None:
             kws.insert(0, ('install_dir', mstr('share/sd')))
         fs.line(d, f"install_subdir({mstr(dirname)}{_kw(kws)})")
     elif kind == 'emptydir':
-        fs.line(d, f"install_emptydir({', '.join(mstr(f) for f in it['files'])}{_kw([kw for kw in kws if kw[0] != 'install_dir'])})")
+        # the directory is the argument: the expression when one is given, else the literal names
+        dirs = it['dir_expr'] if it.get('dir_expr') else ', '.join(mstr(f) for f in it['files'])
+        fs.line(d, f"install_emptydir({dirs}{_kw([kw for kw in kws if kw[0] != 'install_dir'])})")
+    elif kind == 'conf':
+        # configure_file(install: true): files[0] is the output, its input is <output>.in
+        out = it['files'][0]
+        put(out + '.in', f'configured and installed {out}\n')
+        if not any(k_ == 'install_dir' for k_, _ in kws):
+            kws.insert(0, ('install_dir', mstr('share/cf')))
+        fs.line(d, f"configure_file(input: {mstr(out + '.in')}, output: {mstr(out)}, copy: true, install: true{_kw(kws)})")
     elif kind == 'symlink':
         if not any(k_ == 'install_dir' for k_, _ in kws):
             kws.insert(0, ('install_dir', mstr('share/ln')))
